@@ -1798,8 +1798,13 @@ fn grouped_target(rng: &mut Rng, ty: T) -> (String, Vec<Sib>) {
     let nc = weighted(rng, &[(25, 0), (50, 1), (25, 2)]) as usize;
     let nd = weighted(rng, &[(45, 0), (40, 1), (15, 2)]) as usize;
     if policy {
-        if nc > 0 {
-            // a constant policy needs both directions ("both horizontal and vertical policies must be specified")
+        // a constant policy needs both directions ("both horizontal and vertical policies must be specified"), and a
+        // stretch the translator evaluates to a constant (`{ let x = a.b == c.d; return 3 }`) needs the policies
+        // ("cannot specify stretch without horizontal and vertical policies") — whether the program under test is
+        // such a constant is not known here, so the pair is always there (`nc` is still drawn: same random stream);
+        // a size policy with dynamic members only is the document generator's `doc-sizepolicy` shape
+        let _ = nc;
+        {
             for (p, v) in [("sizePolicy.horizontalPolicy", "QSizePolicy.Expanding"), ("sizePolicy.verticalPolicy", "QSizePolicy.Fixed")] {
                 sibs.push(Sib { path: p.into(), value: v.into(), dynamic: false, ui: None });
             }
